@@ -320,7 +320,7 @@ FRAME_ONLY = [("component_validate", 8), ("index_validate", 2), ("to_yaml", 6), 
               ("update_column", 3), ("update_columns", 2), ("rename_columns", 3), ("select_columns", 2),
               ("set_index", 3), ("reset_index", 3), ("component_update_checks", 2)]
 MODEL_ONLY = [("model_to_schema", 4), ("model_subclass", 3), ("model_to_yaml", 3), ("model_edit_returned", 2),
-              ("model_example", 1)]
+              ("model_example", 1), ("model_empty", 4), ("model_json_schema", 2), ("model_get_metadata", 2)]
 SERIES_ONLY = [("update_checks", 3), ("index_validate", 2)]
 
 
